@@ -51,6 +51,13 @@ void run_it_rech_u(pbt::Source& src, const Cfg& cfg);
 void run_it_rech_s(pbt::Source& src, const Cfg& cfg);
 void run_it_recs_u(pbt::Source& src, const Cfg& cfg);
 void run_it_recs_s(pbt::Source& src, const Cfg& cfg);
+// ... the same for the pairs 4..7 (second half of the template matrix, own TUs: C05_merge_it_*_b.cpp)
+void run_it_rec8_u_b(pbt::Source& src, const Cfg& cfg);
+void run_it_rec8_s_b(pbt::Source& src, const Cfg& cfg);
+void run_it_rech_u_b(pbt::Source& src, const Cfg& cfg);
+void run_it_rech_s_b(pbt::Source& src, const Cfg& cfg);
+void run_it_recs_u_b(pbt::Source& src, const Cfg& cfg);
+void run_it_recs_s_b(pbt::Source& src, const Cfg& cfg);
 
 // ---------------------------------------------------------------- element types
 
@@ -1166,7 +1173,8 @@ void run_case(pbt::Source& src, const Cfg& cfg, Cmp cmp) {
     run_case_x<E, VecKind<E, RawPtr>, VecKind<E, RawPtr>, false, Stable>(src, cfg, cmp);
 }
 
-//! target merge_iters: dispatch on the (input kind, output kind) pair drawn by the dispatcher
+//! target merge_iters: dispatch on the (input kind, output kind) pair drawn by the dispatcher; the matrix is split in
+//! two halves (pairs 0..3 / 4..7) that are instantiated in different TUs
 template <class E, bool Stable>
 void run_iters(pbt::Source& src, const Cfg& cfg) {
     OwnCmp<E> cmp(cfg.desc);
@@ -1174,7 +1182,13 @@ void run_iters(pbt::Source& src, const Cfg& cfg) {
     case 0: run_case_x<E, DequeKind<E>, VecKind<E, false>, true, Stable>(src, cfg, cmp); break;
     case 1: run_case_x<E, ReverseKind<E, false>, VecKind<E, false>, true, Stable>(src, cfg, cmp); break;
     case 2: run_case_x<E, StrideKind<E>, DequeKind<E>, true, Stable>(src, cfg, cmp); break;
-    case 3: run_case_x<E, VecKind<E, false>, DequeKind<E>, true, Stable>(src, cfg, cmp); break;
+    default: run_case_x<E, VecKind<E, false>, DequeKind<E>, true, Stable>(src, cfg, cmp); break;
+    }
+}
+template <class E, bool Stable>
+void run_iters_b(pbt::Source& src, const Cfg& cfg) {
+    OwnCmp<E> cmp(cfg.desc);
+    switch (cfg.pair) {
     case 4: run_case_x<E, VecKind<E, true>, ReverseKind<E, false>, true, Stable>(src, cfg, cmp); break;
     case 5: run_case_x<E, DequeKind<E>, DequeKind<E>, true, Stable>(src, cfg, cmp); break;
     case 6: run_case_x<E, ReverseKind<E, true>, StrideKind<E>, true, Stable>(src, cfg, cmp); break;
